@@ -6,7 +6,7 @@
 From Coq Require Import List NArith Arith Bool.
 From Tongo Require Import Lib.Bits Lib.Res Spec.Sha256 Model.BocParse Model.CellHash Spec.ReprHash
   Model.HasherCache Model.Merkle Proofs.BocParseP Proofs.CellHashP Proofs.HasherCacheP
-  Proofs.C02History Proofs.C02Masks.
+  Proofs.C02History Proofs.C02Masks Proofs.C02Depth.
 Import ListNotations.
 
 (** *** one caching hasher *)
@@ -136,3 +136,25 @@ Proof.
   split; [cbn; repeat split; reflexivity|].
   eexists. eexists. split; [vm_compute; reflexivity|reflexivity].
 Qed.
+
+(** *** depth limit at every level *)
+
+(** A cell for which newImmutableCell returns hashes has Depth(l) <= 1024 at
+    EVERY level l (the limit is checked inside the loop over the levels). *)
+Theorem C02_depth_limit_every_level :
+  forall (H : bytes -> bytes) special ty mask l refs im lev d,
+  is_pruned special ty = false ->
+  build_imm H special ty mask l refs = Ok im -> imm_depth im lev = Ok d -> (d <= 1024)%N.
+Proof. exact depth_limit_every_level. Qed.
+Print Assumptions C02_depth_limit_every_level.
+
+(** Not vacuous: the level-0 depth does not bound the depths of the higher
+    levels (a pruned branch stores one depth per level), so checking the limit
+    only at level 0 would hash a cell of level 2 whose level-1 depth is 1025. *)
+Theorem C02_level0_check_insufficient_refuted :
+  res_map snd (hd_at sha256 wit_level2_parent 0) = Ok 6%N /\
+  res_map snd (hd_at sha256 wit_pruned2 1) = Ok 1024%N /\
+  hd_at sha256 wit_level2_parent 1 = Err EDepth /\
+  imm_of sha256 wit_level2_parent = Err EDepth /\
+  masks_ok wit_level2_parent.
+Proof. exact level0_check_insufficient_refuted. Qed.
